@@ -75,6 +75,22 @@ func vfRPCListRun(t testing.TB, sc vfScript) []map[string]any {
 			vfInfra("message send: %v", err)
 		}
 	}
+	// a second writer: the logs then have several heads (no local write follows)
+	if nf, _ := vfNum(sc.Cfg, "foreign"); nf > 0 {
+		src, err := s.GetContextGroupForID(cr.GroupPk)
+		if err != nil {
+			vfInfra("group context: %v", err)
+		}
+		fw, err := vfNewForeign(ctx, tp.IpfsCoreAPI, src.Group())
+		if err != nil {
+			vfInfra("foreign writer: %v", err)
+		}
+		for i := 0; i < nf; i++ {
+			if err := fw.Write(ctx, src, i); err != nil {
+				vfInfra("foreign write: %v", err)
+			}
+		}
+	}
 	panicked := false
 	callMeta := func(r vfListReq) (ids [][]byte, err error) {
 		defer func() {
